@@ -96,6 +96,15 @@ def run(c):
     rng = c.rng
     n = 20000 if c.quick else 600000
     maps = []
+    # long values and many fields: lengths / counts around powers of two (plain characters: the sizes are the point)
+    for k in range(4, 14 if c.quick else 16):
+        for d in (-1, 0, 1):
+            L = (1 << k) + d
+            maps.append(({"long": "v" * L}, {"size:value-2^%d" % k}))
+            maps.append(({"k" * L: "v"}, {"size:key-2^%d" % k}))
+            maps.append(({"a": "x", "long": ("ab c&d=" * L)[:L], "z": "y"}, {"size:reserved-value-2^%d" % k}))
+    for cnt in (31, 32, 33, 63, 64, 65, 127, 128, 129, 255, 256, 257, 500) + (() if c.quick else (1000, 1024, 1025, 4000)):
+        maps.append(({"f%d" % j: "v%d" % j for j in range(cnt)}, {"size:fields-%d" % cnt}))
     for i in range(n):
         m, feats = gen_map(rng)
         maps.append((m, feats))
@@ -152,6 +161,7 @@ def echo(c, rng, maps):
     try:
         # the encoder's own output for each map (query.roundtrip returns it)
         pick = [maps[i] for i in sorted(rng.sample(range(len(maps)), min(len(maps), 700 if c.quick else 8000)))]
+        pick += [x for x in maps if any(f.startswith("size:") for f in x[1]) and x not in pick]
         cases = [core.Case("e%d" % i, "query.roundtrip", map_fields(m)) for i, (m, f) in enumerate(pick)]
         obs = core.run_cases(cases)
         srv = server.Server(t.root, threads=4)
@@ -168,7 +178,12 @@ def echo(c, rng, maps):
                     raw = ("GET /form-get-method?%s HTTP/1.1\r\nHost: x\r\n\r\n" % enc).encode("utf-8")
                 else:
                     body = enc.encode("utf-8")
-                    raw = ("POST /form-url-encoded-enctype-post-method HTTP/1.1\r\nHost: x\r\nContent-Type: application/x-www-form-urlencoded\r\nContent-Length: %d\r\n\r\n" % len(body)).encode() + body
+                    # header names in any letter case and either order (they are case-insensitive)
+                    ctn, cln = rng.choice([("Content-Type", "Content-Length")] * 3 + [("content-type", "content-length"), ("CONTENT-TYPE", "CONTENT-LENGTH"), ("Content-type", "Content-length")])
+                    hl = ["%s: application/x-www-form-urlencoded" % ctn, "%s: %d" % (cln, len(body))]
+                    if rng.chance(1, 3):
+                        hl.reverse()
+                    raw = ("POST /form-url-encoded-enctype-post-method HTTP/1.1\r\nHost: x\r\n%s\r\n\r\n" % "\r\n".join(hl)).encode() + body
                 if len(raw) > 9000:
                     continue
                 data, end = srv.request(raw)
@@ -177,6 +192,8 @@ def echo(c, rng, maps):
                     c.cls(tuple(sorted(f.split(":")[0] for f in feats)), kind)
                 rp = {"entry": kind, "map": dict(list(m.items())[:8]), "request_b64": base64.b64encode(raw).decode()}
                 if not srv.alive() or len(srv.workers_alive()) < 4:
+                    rp["census"] = srv.census()
+                    rp["log_tail"] = srv.stderr_text()[-800:]
                     c.violation("C17:%s:worker-lost" % kind.replace(" ", "-"), "echo endpoint killed a worker: %s" % srv.crash_lines()[:2], rp)
                     srv.cleanup()
                     srv = server.Server(t.root, threads=4)
